@@ -85,6 +85,8 @@ structure Static (cfg : Config) (p : Params) : Prop where
   maxT_pos : 1 ≤ p.maxTimeout
   tax_lt : p.tax < decUnit
   slash_le : p.slash ≤ decUnit
+  complaint_pos : 0 < p.complaint
+  arbitration_pos : 0 < p.arbitration
 
 abbrev InvStatic (s : State) : Prop := Static s.cfg s.params
 
